@@ -79,14 +79,11 @@ theorem flatMap_idle {β : Type} (f : Slot → List β) (hf : f .idle = []) {l :
     rfl
 
 /-- Once everything has drained, every received request has been answered. -/
-theorem drained_all_sent {s : State} (hl : InvLoc s) (ho : InvOrd s)
-    (h1 : s.pktChan = []) (h2 : s.poolQueue = []) (h3 : s.cmdQueue = [])
-    (h4 : ∀ sl ∈ s.slots, sl = Slot.idle) (h5 : s.cmdSlot = Slot.idle)
+theorem drained_all_sent_of_pending {s : State} (hl : InvLoc s) (ho : InvOrd s)
+    (h1 : s.pktChan = []) (hp : pendingOids s = [])
     (h6 : s.reqInbox = []) (h7 : s.respInbox = []) : s.sent.length = s.received.length := by
   have hrd : s.received = s.dispatched := by rw [hl.split, h1, List.append_nil]
   rw [hrd]
-  have hp : pendingOids s = [] := by
-    simp [pendingOids, h2, h3, h5, flatMap_idle slotOids rfl h4, slotOids]
   have hperm := hl.cnt
   simp only [locs, hp, h7, List.map_nil, List.append_nil] at hperm
   have hnd : ((s.sent ++ s.outgoing).map Resp.oid).Nodup := hperm.nodup_iff.mpr List.nodup_range'
@@ -133,6 +130,14 @@ theorem drained_all_sent {s : State} (hl : InvLoc s) (ho : InvOrd s)
         rw [hout, List.map_cons, List.pairwise_cons] at hsorted
         have := hsorted.1 _ hnext
         omega
+
+theorem drained_all_sent {s : State} (hl : InvLoc s) (ho : InvOrd s)
+    (h1 : s.pktChan = []) (h2 : s.poolQueue = []) (h3 : s.cmdQueue = [])
+    (h4 : ∀ sl ∈ s.slots, sl = Slot.idle) (h5 : s.cmdSlot = Slot.idle)
+    (h6 : s.reqInbox = []) (h7 : s.respInbox = []) : s.sent.length = s.received.length := by
+  have hp : pendingOids s = [] := by
+    simp [pendingOids, h2, h3, h5, flatMap_idle slotOids rfl h4, slotOids]
+  exact drained_all_sent_of_pending hl ho h1 hp h6 h7
 
 /-- C14 core: every request received before a CLOSE that has left the dispatcher has been handled. -/
 theorem close_prior_handled {s : State} (hl : InvLoc s) (hc : InvClose s) {c : OReq} (hcr : c ∈ s.received)
